@@ -443,6 +443,36 @@ fn mutations_for(seed: &seeds::Seed, idx: usize, tier: Tier, rng_seed: u64) -> V
             }
         }
     }
+    // (ii-b) narrow fields deep inside chunked files: byte-wide substitution over the first bytes of every
+    // chunk payload, and over every byte of the ADT MH2O liquid instances (x/y offset, width, height and the
+    // vertex format are single bytes / words 3 KiB into the chunk, out of reach of the head region above)
+    const BYTE_VALUES: [u64; 10] = [0, 1, 2, 7, 8, 9, 0x10, 0x7F, 0x80, 0xFF];
+    let mut dense: Vec<usize> = vec![];
+    for &(cs, cl) in chunks.iter().take(if quick { 24 } else { 400 }) {
+        dense.extend((cs + 8..cs + cl).take(if quick { 16 } else { 64 }));
+        if seed.format == "adt" && &b[cs..cs + 4] == b"O2HM" {
+            let p0 = cs + 8;
+            let rd = |o: usize| if o + 4 <= cs + cl { u32::from_le_bytes(b[o..o + 4].try_into().unwrap()) as usize } else { 0 };
+            let mut instances = 0;
+            for e in 0..256 {
+                let (off, layers) = (rd(p0 + e * 12), rd(p0 + e * 12 + 4));
+                for l in 0..layers.min(4) {
+                    let at = p0 + off + l * 24;
+                    if off != 0 && at + 24 <= cs + cl && instances < if quick { 6 } else { 64 } {
+                        instances += 1;
+                        dense.extend(at..at + 24);
+                    }
+                }
+            }
+        }
+    }
+    for off in dense {
+        for (vi, v) in BYTE_VALUES.iter().enumerate() {
+            if *v != b[off] as u64 && !(quick && vi % 2 == 1 && !(7..=9).contains(v)) {
+                out.push(Case { format: fmt.clone(), seed: idx, m: Mutation::Subst { off, width: 1, val: *v } });
+            }
+        }
+    }
     // encrypted MPQ tables
     if seed.format == "mpq" {
         let hk = rc::hash_string(b"(hash table)", rc::HASH_FILE_KEY);
